@@ -435,6 +435,16 @@ func runC07(c *core.Ctx) core.Meta {
 						c.ReportAt("R07.1", fn, bo.Pos(), fmt.Sprintf("merge:%s:shift%d", ctx, S), fmt.Sprintf("the half written at bit %d is merged with mask %#x; keeping the other half requires %#x", S, M, want))
 					}
 					checkHalfCtx(c, st1, fn, bo, ctx, S)
+					// the half that is kept comes from the register that is written
+					srcReg, sinkReg := specialRegOfSource(and.X), specialRegOfSink(bo)
+					if srcReg != "" && sinkReg != "" {
+						okR := srcReg == sinkReg
+						st1.Ob(okR)
+						st1.Sample("%s [%s]: the kept half is read from %s, the merged value is written to %s", a.fn, ctx, srcReg, sinkReg)
+						if !okR {
+							c.ReportAt("R07.1", fn, bo.Pos(), "merge:"+sinkReg+":kept-half-from-"+srcReg, fmt.Sprintf("a half write of %s keeps the other half of %s: the write of one 32-bit half replaces the other half of %s with bits of a different register", strings.ToUpper(sinkReg), strings.ToUpper(srcReg), strings.ToUpper(sinkReg)))
+						}
+					}
 				}
 			}
 			// half reads: uint32(x >> S) / uint32(x) in a half context
@@ -861,6 +871,77 @@ func runC07(c *core.Ctx) core.Meta {
 		Explanation: "Aliasing shapes of the architectural register stores decided statically: half-register merges (mask/shift agreement, LO/HI context) and half reads in all five accessors, the (register kind, count) coverage of the five accessors evaluated as decision tables and compared as siblings, vector-register strides of emulation versus the timing register file and its builder constants, the multi-register width rule, and the range cleared at wavefront release.",
 		NotDecided:  "read-after-write equality over all access sequences (value level); bounds of register indices; SGPR/VGPR allocation offsets",
 		Assumptions: commonAssumptions}
+}
+
+// specialRegOfSource: "vcc" / "exec" when v is the 64-bit value of that register (getter call or
+// field load), "" otherwise.
+func specialRegOfSource(v ssa.Value) string {
+	name := ""
+	switch x := v.(type) {
+	case *ssa.Call:
+		if x.Call.IsInvoke() {
+			name = x.Call.Method.Name()
+		} else if f := x.Call.StaticCallee(); f != nil {
+			name = f.Name()
+		}
+	default:
+		if f := core.LoadedField(v); f != nil {
+			name = f.Name()
+		}
+	}
+	switch strings.ToLower(name) {
+	case "vcc":
+		return "vcc"
+	case "exec":
+		return "exec"
+	}
+	return ""
+}
+
+// specialRegOfSink: the register a merged value is installed in (SetVCC / SetEXEC argument or a
+// store to the vcc / exec field), following phis; "" when the value goes elsewhere.
+func specialRegOfSink(v ssa.Value) string {
+	seen := map[ssa.Value]bool{}
+	out := ""
+	var walk func(v ssa.Value)
+	walk = func(v ssa.Value) {
+		if seen[v] || v.Referrers() == nil {
+			return
+		}
+		seen[v] = true
+		for _, r := range *v.Referrers() {
+			switch x := r.(type) {
+			case *ssa.Phi:
+				walk(x)
+			case *ssa.Call:
+				name := ""
+				if x.Call.IsInvoke() {
+					name = x.Call.Method.Name()
+				} else if f := x.Call.StaticCallee(); f != nil {
+					name = f.Name()
+				}
+				switch name {
+				case "SetVCC":
+					out = "vcc"
+				case "SetEXEC":
+					out = "exec"
+				}
+			case *ssa.Store:
+				if x.Val == v {
+					if f := core.FieldOfAddr(x.Addr); f != nil {
+						switch strings.ToLower(f.Name()) {
+						case "vcc":
+							out = "vcc"
+						case "exec":
+							out = "exec"
+						}
+					}
+				}
+			}
+		}
+	}
+	walk(v)
+	return out
 }
 
 func checkHalfCtx(c *core.Ctx, st *core.RuleStat, fn *ssa.Function, in ssa.Instruction, ctx string, S int64) {
